@@ -27,6 +27,8 @@ def cfg_sampler(ctx, thorough, extra=None, n_override=None):
             if rnd.random() < 0.3: mca['runtime_keep_highest_priority_task'] = rnd.choice([0, 1])
             c = e1run.Cfg(sched=scheds[i % len(scheds)], cores=rnd.choice([1, 2, 3, 4, 4, 8] + ([16] if thorough else [])), mca=mca, seed=ctx.seed,
                           sleep=(rnd.choice([0, 0, 100]), 300))
+            # several virtual processes (synthetic multi-package topology + hwloc vpmap) in a third of the runs
+            if c.cores >= 2 and rnd.random() < 0.35: c.vps = rnd.choice([2, 2, 3, 4]); c.vps = min(c.vps, c.cores)
             if extra: extra(c, rnd)
             out.append(c)
         return out
